@@ -79,6 +79,22 @@ func repCases() []repCase {
 		}
 		add(op, []hx.Attr{hx.AInt("hidden_size", 2)}, n, "all-optional-inputs", ins...)
 	}
+	add("Gemm", []hx.Attr{hx.AInt("transA", 1)}, 1, "transA", f(1, 3, 2), f(2, 3, 2), f(3, 2))
+	add("Gemm", []hx.Attr{hx.AInt("transA", 1), hx.AInt("transB", 1), hx.AFloat("alpha", 2)}, 1, "transA-transB-square", f(1, 2, 2), f(2, 2, 2))
+	for _, op := range []string{"RNN", "GRU", "LSTM"} {
+		ng := map[string]int{"RNN": 1, "GRU": 3, "LSTM": 4}[op]
+		n := 2
+		if op == "LSTM" {
+			n = 3
+		}
+		add(op, []hx.Attr{hx.AInt("hidden_size", 2)}, n, "no-optional-inputs", f(1, 3, 2, 2), f(2, 1, ng*2, 2), f(3, 1, ng*2, 2))
+	}
+	add("GRU", []hx.Attr{hx.AInt("hidden_size", 2), hx.AInt("linear_before_reset", 1)}, 2, "linear_before_reset", f(1, 3, 2, 2), f(2, 1, 6, 2), f(3, 1, 6, 2), f(4, 1, 12))
+	add("Conv", []hx.Attr{hx.AInts("pads", 1, 0, 0, 2), hx.AInts("dilations", 1, 2)}, 1, "2D-no-bias-asymmetric-pads", f(1, 1, 2, 3, 4), f(2, 2, 2, 2, 2))
+	add("Softmax", []hx.Attr{hx.AInt("axis", -1)}, 1, "last-axis", f(1, 2, 3))
+	add("LogSoftmax", []hx.Attr{hx.AInt("axis", 0)}, 1, "axis-0", f(1, 2, 3))
+	add("ReduceMax", nil, 1, "no-attributes", f(1, 2, 3))
+	add("ReduceMin", []hx.Attr{hx.AInts("axes", -1)}, 1, "keepdims-default", f(1, 2, 3))
 	add("Reshape", nil, 1, "", f(1, 2, 3), ref.I64Vec(3, -1))
 	add("Flatten", []hx.Attr{hx.AInt("axis", 1)}, 1, "", f(1, 2, 3, 2))
 	add("Squeeze", nil, 1, "", f(1, 2, 1, 3), ref.I64Vec(1))
